@@ -52,7 +52,16 @@ enum { BK_N, BK_II, BK_UU, BK_IU, BK_UI, BK_DD };
 static int r_rc, r_errno;
 static char r_val[64];
 
+/*
+ * errno on entry is whatever an earlier, unrelated call left behind: the
+ * result must not depend on it.
+ */
+static int pre_errno[] = { 0, ERANGE, EINVAL, ENOMEM, EINTR };
+static unsigned n_calls;
+#define STALE_ERRNO()	(errno = pre_errno[n_calls++ % 5])
+
 #define UNBOUNDED(x)	do {						\
+	STALE_ERRNO();							\
 	if (c->api == 'P')						\
 		r_rc = PARSENUM(x, c->s);				\
 	else								\
@@ -61,6 +70,7 @@ static char r_val[64];
 } while (0)
 
 #define BOUNDED(x, MIN, MAX)	do {					\
+	STALE_ERRNO();							\
 	if (c->api == 'P')						\
 		r_rc = PARSENUM(x, c->s, MIN, MAX);			\
 	else								\
